@@ -8,6 +8,13 @@ package wal
 // called and when the crash clone is taken.  Afterwards the real wal.Scan and
 // virtualWALReader read the logical log.  The trace is decided by TLC
 // (FailoverTrace).
+//
+// The schedules come from a model whose recordQueue ring has QCap slots.  Mode
+// "real" runs them one real record per model record (the 8192-slot ring never
+// fills); mode "small" replaces the queue's buffer by a QCap-slot one, so the
+// ring fills, wraps and doubles exactly as in the model; mode "scaled" keeps
+// the real ring and writes initialBufferLen/QCap tiny records per model record,
+// so the real ring fills, wraps and doubles where the model's does.
 
 import (
 	"bufio"
@@ -210,6 +217,8 @@ type vWalFoCase struct {
 	CrashPct int     `json:"crashpct"` // unsynced data percent of the crash clone
 	WalSync  bool    `json:"walsync"`
 	Src      string  `json:"src"`
+	QCap     int     `json:"qcap"` // ring capacity of the generating model (0: not modelled)
+	Mode     string  `json:"mode"` // "real" | "small" | "scaled"
 }
 
 func vWalFoRecord(seq uint64, count uint32, size int, salt int) []byte {
@@ -270,35 +279,54 @@ func vWalFoRun(t *vWalFoTrace, c vWalFoCase, rng *rand.Rand) (problem string) {
 	for _, s := range c.LogData {
 		isLogData[s] = true
 	}
+	// block = real records per model record
+	block := 1
+	if c.Mode == "scaled" && c.QCap > 0 && initialBufferLen/c.QCap > 1 {
+		block = initialBufferLen / c.QCap
+	}
+	scaled := block > 1
+	nr := c.N * block
 	// records: seq strictly increasing; a count-0 batch repeats the next sequence number
-	recs := make([][]byte, c.N+1)
-	seqs := make([]uint64, c.N+1)
-	counts := make([]uint32, c.N+1)
+	recs := make([][]byte, nr+1)
+	seqs := make([]uint64, nr+1)
+	counts := make([]uint32, nr+1)
+	realSync := make([]bool, nr+1)
+	seqIndex := make(map[uint64]int, nr)
 	seq := uint64(10)
-	for i := 1; i <= c.N; i++ {
+	for i := 1; i <= nr; i++ {
+		r := (i-1)/block + 1 // the model record
 		size := 30
-		if i-1 < len(c.Sizes) {
+		if scaled {
+			size = (i*7 + c.ID) % 11
+		} else if i-1 < len(c.Sizes) {
 			size = c.Sizes[i-1]
 		}
-		if isLogData[i] {
+		if isLogData[r] && !scaled {
 			seqs[i], counts[i] = seq, 0
 		} else {
-			cnt := uint32(1 + i%3)
+			cnt := uint32(1 + r%3)
 			seqs[i], counts[i] = seq, cnt
+			seqIndex[seq] = i
 			seq += uint64(cnt)
+		}
+		if i == r*block {
+			realSync[i] = isSync[r]
+		} else {
+			realSync[i] = rng.IntN(block) < 2 // a few more sync requests inside a block
 		}
 		recs[i] = vWalFoRecord(seqs[i], counts[i], size, c.ID)
 	}
-	t.logf(`{"op":"fstart","id":%d,"n":%d,"walsync":%v,"src":"%s"}`, c.ID, c.N, c.WalSync, c.Src)
+	t.logf(`{"op":"fstart","id":%d,"n":%d,"walsync":%v,"src":"%s","mode":"%s","qcap":%d,"block":%d}`, c.ID, c.N, c.WalSync, c.Src, c.Mode, c.QCap, block)
 
 	stopper := newStopper()
 	created := make(chan struct{}, 1000)
-	queueSem := make(chan struct{}, c.N+10)
+	queueSem := make(chan struct{}, nr+10)
 	var ww *failoverWriter
 	var closeStarted, closeDone atomic.Bool
 	closeCh := make(chan error, 1)
 	nwi := 0
 	var wgWaiters sync.WaitGroup
+	var nWaiters, nReleased atomic.Int64
 	written := 0
 	crashed := false
 	var readFS vfs.FS = memFS
@@ -325,6 +353,11 @@ func vWalFoRun(t *vWalFoTrace, c vWalFoCase, rng *rand.Rand) (problem string) {
 				}, dirs[0])
 				if err != nil {
 					problem = "newFailoverWriter: " + err.Error()
+				} else if c.Mode == "small" && c.QCap > 0 {
+					// nothing has been pushed and the creation goroutine is parked at the create gate
+					ww.q.mu.Lock()
+					ww.q.buffer = make([]recordQueueEntry, c.QCap)
+					ww.q.mu.Unlock()
 				}
 			} else if ww != nil {
 				if err := ww.switchToNewDir(dirs[nwi%2]); err != nil {
@@ -338,22 +371,43 @@ func vWalFoRun(t *vWalFoTrace, c vWalFoCase, rng *rand.Rand) (problem string) {
 				return
 			}
 			written++
-			i := written
-			so := SyncOptions{}
-			if isSync[i] {
-				wg := &sync.WaitGroup{}
-				wg.Add(1)
-				so = SyncOptions{Done: wg, Err: new(error)}
-				queueSem <- struct{}{}
-				wgWaiters.Add(1)
-				go func() {
-					defer wgWaiters.Done()
-					wg.Wait()
-					t.logf(`{"op":"freleased","i":%d,"seq":%d,"err":%v}`, i, seqs[i], *so.Err != nil)
-				}()
+			runStart, runN, runErr := 0, 0, false // consecutive records reported by one fwrote event
+			for i := (written-1)*block + 1; i <= written*block; i++ {
+				so := SyncOptions{}
+				if realSync[i] {
+					wg := &sync.WaitGroup{}
+					wg.Add(1)
+					so = SyncOptions{Done: wg, Err: new(error)}
+					queueSem <- struct{}{}
+					wgWaiters.Add(1)
+					nWaiters.Add(1)
+					go func() {
+						defer wgWaiters.Done()
+						wg.Wait()
+						t.logf(`{"op":"freleased","i":%d,"seq":%d,"err":%v}`, i, seqs[i], *so.Err != nil)
+						nReleased.Add(1)
+					}()
+				}
+				h, tl := unpackHeadTail(ww.q.headTail.Load())
+				capBefore := len(ww.q.buffer) // only push replaces the buffer, and this goroutine is the producer
+				_, err := ww.WriteRecord(recs[i], so, nil)
+				if runN > 0 && runErr != (err != nil) { // one event = records with the same outcome
+					t.logf(`{"op":"fwrote","i":%d,"n":%d,"seq":%d,"count":%d,"sync":false,"err":%v}`, runStart, runN, seqs[runStart], counts[runStart], runErr)
+					runN = 0
+				}
+				if runN == 0 {
+					runStart, runErr = i, err != nil
+				}
+				runN++
+				grew := len(ww.q.buffer) != capBefore
+				if realSync[i] || grew || i == written*block || counts[i] == 0 {
+					t.logf(`{"op":"fwrote","i":%d,"n":%d,"seq":%d,"count":%d,"sync":%v,"err":%v}`, runStart, runN, seqs[runStart], counts[runStart], realSync[i], runErr)
+					runN = 0
+				}
+				if grew {
+					t.logf(`{"op":"fgrow","cap":%d,"head":%d,"tail":%d}`, len(ww.q.buffer), h, tl)
+				}
 			}
-			_, err := ww.WriteRecord(recs[i], so, nil)
-			t.logf(`{"op":"fwrote","i":%d,"seq":%d,"count":%d,"sync":%v,"err":%v}`, i, seqs[i], counts[i], isSync[i], err != nil)
 		case "CR":
 			g.release("cr", fileOf(arg), false, tmo)
 		case "CRF":
@@ -372,9 +426,15 @@ func vWalFoRun(t *vWalFoTrace, c vWalFoCase, rng *rand.Rand) (problem string) {
 				}
 			}
 		case "FL":
-			g.release("wr", fileOf(arg), false, tmo)
+			// scaled: one flush of the model is every pending block write of the real flush loop
+			for k := 0; g.release("wr", fileOf(arg), false, tmo) && scaled && k < 256; k++ {
+			}
 		case "SY":
-			if g.release("sy", fileOf(arg), false, tmo) {
+			ok := g.release("sy", fileOf(arg), false, tmo)
+			for k := 0; !ok && scaled && k < 256 && g.release("wr", fileOf(arg), false, tmo); k++ {
+				ok = g.release("sy", fileOf(arg), false, tmo)
+			}
+			if ok {
 				time.Sleep(50 * time.Microsecond) // let the callback pop and the waiters log
 			}
 		case "FAIL":
@@ -468,7 +528,10 @@ func vWalFoRun(t *vWalFoTrace, c vWalFoCase, rng *rand.Rand) (problem string) {
 		select {
 		case <-done:
 		case <-time.After(5 * time.Second):
-			stuck = true
+		}
+		if ww != nil {
+			// Close has returned, so popAll has run: a waiter that is still parked was never signalled
+			t.logf(`{"op":"fwaiters","pending":%d}`, nWaiters.Load()-nReleased.Load())
 		}
 	}
 	for i := range dirs {
@@ -494,6 +557,8 @@ func vWalFoRun(t *vWalFoTrace, c vWalFoCase, rng *rand.Rand) (problem string) {
 					term = "EOF"
 				case record.IsInvalidRecord(err):
 					term = "INVALID"
+				case base.IsCorruptionError(err):
+					term = "BADBATCH" // an intact record that is not a batch
 				default:
 					term = "OTHER"
 				}
@@ -507,17 +572,13 @@ func vWalFoRun(t *vWalFoTrace, c vWalFoCase, rng *rand.Rand) (problem string) {
 			h, _ := batchrepr.ReadHeader(data)
 			id := int64(h.SeqNum)
 			// transport: the bytes must be those written for that sequence number
-			match := false
-			for i := 1; i <= c.N; i++ {
-				if seqs[i] == uint64(h.SeqNum) && counts[i] == h.Count && bytes.Equal(data, recs[i]) {
-					match = true
-				}
-			}
+			i, match := seqIndex[uint64(h.SeqNum)]
+			match = match && counts[i] == h.Count && bytes.Equal(data, recs[i])
 			if !match {
 				id = -id - 1
 			}
 			got = append(got, strconv.FormatInt(id, 10))
-			if len(got) > 10000 {
+			if len(got) > nr+10000 {
 				term = "OTHER"
 				break
 			}
@@ -526,7 +587,7 @@ func vWalFoRun(t *vWalFoTrace, c vWalFoCase, rng *rand.Rand) (problem string) {
 	}
 	// per-segment contents as the plain record reader sees them (informational: shows duplicated tails)
 	var segs []string
-	if ll, ok := logs.Get(wn); ok && err == nil {
+	if ll, ok := logs.Get(wn); ok && err == nil && !scaled {
 		for i := 0; i < ll.NumSegments(); i++ {
 			sfs, path := ll.SegmentLocation(i)
 			var ss []string
